@@ -803,6 +803,162 @@ def translate_client_enqueue(srv):
         return None, str(e)
 
 
+# ------------------------------------------------------------------------------------------------------------
+# Translator for the router (router.rs) and `Uri::get_abs_path` (request.rs).
+#   add_route:            `let K = format!("…", args);  match self.routes.entry(K[.clone()]) { Occupied(_) => Err(HandlerExist(K)),
+#                          Vacant(e) => { e.insert(handler); Ok(()) } }`  →  the key function and (occupied ↦ inserted?, ok?)
+#   handle_http_request:  `let P = format!("…", args); let mut R = match self.routes.get(&P) { Some(h) => h.handle_request(..),
+#                          None => Response::new(Version::V, StatusCode::S) }; R.set_x(arg); …; R`  →  key function, the
+#                          fallback response and the setters applied to whatever the handler returned, in order
+#   get_abs_path:         the two-branch shape of the function with its literals
+
+VERSION_LEAN = {"Http10": "http10", "Http11": "http11"}
+
+
+def fmt_pieces(fmt, args, names):
+    """pieces of a `format!` text: bytes literals and Lean terms for the holes (`names`: Rust argument text -> Lean term)"""
+    try:
+        text = unescape(fmt).decode("utf-8")
+    except (ValueError, UnicodeDecodeError):
+        raise Unparsed("format text")
+    args = [re.sub(r"\s+", "", a) for a in args if a.strip()]
+    out, cur, i, k = [], "", 0, 0
+    while i < len(text):
+        if text.startswith("{{", i) or text.startswith("}}", i):
+            cur += text[i]
+            i += 2
+        elif text.startswith("{}", i):
+            if k >= len(args) or args[k] not in names:
+                raise Unparsed("format argument " + (args[k] if k < len(args) else "?"))
+            if cur:
+                out.append(lean_bytes(cur.encode("utf-8")))
+                cur = ""
+            out.append(names[args[k]])
+            k += 1
+            i += 2
+        elif text[i] in "{}":
+            raise Unparsed("format spec")
+        else:
+            cur += text[i]
+            i += 1
+    if cur:
+        out.append(lean_bytes(cur.encode("utf-8")))
+    if k != len(args):
+        raise Unparsed("unused format argument")
+    return " ++ ".join(out) if out else "[]"
+
+
+def split_args(t):
+    """top-level comma split"""
+    out, depth, cur = [], 0, ""
+    for ch in t:
+        if ch in "([{":
+            depth += 1
+        elif ch in ")]}":
+            depth -= 1
+        if ch == "," and depth == 0:
+            out.append(cur)
+            cur = ""
+        else:
+            cur += ch
+    if cur.strip():
+        out.append(cur)
+    return out
+
+
+def translate_router(router):
+    """(addKey, addShape, dispatchKey, handle) as Lean terms, or Unparsed"""
+    res = {}
+    try:
+        body = fn_body(router, "HttpRoutes<T>", "add_route")
+        if body is None:
+            raise Unparsed("add_route")
+        m = re.search(r"let\s+(\w+)\s*=\s*format!\(\s*" + STR + r"\s*,(.*?)\)\s*;\s*match\s+self\.routes\.entry\(\s*(\w+)(?:\.clone\(\))?\s*\)\s*\{(.*)\}\s*\}\s*$", body, flags=re.S)
+        if not m or m.group(1) != m.group(4):
+            raise Unparsed("add_route shape")
+        kv = m.group(1)
+        res["addKey"] = "fun m pre path => " + fmt_pieces(m.group(2), split_args(m.group(3)),
+                                                         {"method.to_str()": "m.toStr", "self.prefix": "pre", "path": "path"})
+        arms = m.group(5)
+        occ = re.search(r"Entry::Occupied\(\s*_\w*\s*\)\s*=>\s*Err\(\s*RouteError::HandlerExist\(\s*" + kv + r"\s*\)\s*\)\s*,", arms)
+        vac = re.search(r"Entry::Vacant\(\s*(\w+)\s*\)\s*=>\s*\{\s*\1\.insert\(\s*handler\s*\)\s*;\s*Ok\(\s*\(\)\s*\)\s*\}", arms)
+        rest = arms
+        for x in (occ, vac):
+            if not x:
+                raise Unparsed("add_route arms")
+            rest = rest.replace(x.group(0), "")
+        if rest.strip(" \n\t,"):
+            raise Unparsed("add_route: extra arm text")
+        res["addShape"] = "fun occupied => if occupied then (false, false) else (true, true)"
+    except Unparsed as e:
+        res["addKey"] = res["addShape"] = None
+        res["why_add"] = str(e)
+    try:
+        body = fn_body(router, "HttpRoutes<T>", "handle_http_request")
+        nbody = fn_body(router, "HttpRoutes<T>", "new")
+        if body is None or nbody is None:
+            raise Unparsed("handle_http_request")
+        m = re.search(r"^\s*\{\s*let\s+(\w+)\s*=\s*format!\(\s*" + STR + r"\s*,(.*?)\)\s*;\s*let\s+mut\s+(\w+)\s*=\s*match\s+self\.routes\.get\(\s*&\1\s*\)\s*\{(.*?)\}\s*;(.*)\}\s*$", body, flags=re.S)
+        if not m:
+            raise Unparsed("handle shape")
+        res["dispatchKey"] = "fun m abs => " + fmt_pieces(m.group(2), split_args(m.group(3)),
+                                                          {"request.method().to_str()": "m.toStr", "request.uri().get_abs_path()": "abs"})
+        rv, arms, tail = m.group(4), m.group(5), m.group(6)
+        some = re.search(r"Some\(\s*(\w+)\s*\)\s*=>\s*\1\.handle_request\(\s*request\s*,\s*argument\s*\)\s*,", arms)
+        none = re.search(r"None\s*=>\s*Response::new\(\s*Version::(\w+)\s*,\s*StatusCode::(\w+)\s*\)\s*,?", arms)
+        rest = arms
+        for x in (some, none):
+            if not x:
+                raise Unparsed("handle arms")
+            rest = rest.replace(x.group(0), "")
+        if rest.strip(" \n\t,") or none.group(1) not in VERSION_LEAN or none.group(2) not in STATUS_LEAN:
+            raise Unparsed("handle arms: extra text")
+        fields = {}
+        for fm in re.finditer(r"\b(\w+)\s*:\s*MediaType::(\w+)\s*,", nbody):
+            fields["self." + fm.group(1)] = "." + MEDIA_LEAN.get(fm.group(2), "?")
+        if re.search(r"\bserver_id\s*,", nbody):
+            fields["&self.server_id"] = "r.serverId"
+        term = f"(match found with | some x => x | none => Response.new .{VERSION_LEAN[none.group(1)]} .{STATUS_LEAN[none.group(2)]})"
+        stmts = [x.strip() for x in split_stmts(tail) if x.strip()]
+        if not stmts or stmts[-1] != rv:
+            raise Unparsed("handle tail")
+        ops = {fn: ctor for ctor, fn, _ in BUILD_OPS}
+        for st in stmts[:-1]:
+            sm = re.fullmatch(re.escape(rv) + r"\.(\w+)\(\s*(.*?)\s*\);", st, flags=re.S)
+            if not sm or sm.group(1) not in ops:
+                raise Unparsed("handle statement " + st)
+            arg = sm.group(2)
+            if arg and (arg not in fields or "?" in fields[arg]):
+                raise Unparsed("handle argument " + arg)
+            term = f"(Response.apply {term} (.{ops[sm.group(1)]}{' ' + fields[arg] if arg else ''}))"
+        res["handle"] = "fun r found => " + term
+    except Unparsed as e:
+        res["dispatchKey"] = res["handle"] = None
+        res["why_handle"] = str(e)
+    return res
+
+
+def translate_abs_path(req):
+    body = fn_body(req, "Uri", "get_abs_path")
+    if body is None:
+        return None
+    t = re.sub(r"\s+", " ", body)
+    m = re.fullmatch(
+        r" ?\{ const (\w+): &str = " + STR + r"; if self\.string\.starts_with\(\1\) \{ let (\w+) = &self\.string\[\1\.len\(\)\.\.\]; "
+        r"if \3\.is_empty\(\) \{ return \"\"; \} match \3\.bytes\(\)\.position\(\|(\w+)\| \4 == b'(.)'\) \{ "
+        r"Some\((\w+)\) => &\3\[\6\.\.\], None => \"\", \} \} else \{ if self\.string\.starts_with\('(.)'\) \{ "
+        r"return self\.string\.as_str\(\); \} \"\" \} \} ?", t)
+    if not m:
+        return None
+    try:
+        pre = unescape(m.group(2))
+    except ValueError:
+        return None
+    c1, c2 = ord(m.group(5)), ord(m.group(7))
+    return (f"fun uri => if ({lean_bytes(pre)} : List UInt8).isPrefixOf uri then (let w := uri.drop ({lean_bytes(pre)} : List UInt8).length; "
+            f"if w.isEmpty then [] else w.dropWhile (· != {c1})) else if ([{c2}] : List UInt8).isPrefixOf uri then uri else []")
+
+
 def shared_state(srcs):
     """state that lives OUTSIDE the objects: `thread_local!`, `static mut`, `lazy_static!`, statics with interior
     mutability. The model treats connections, servers, routers, responses and header sets as independent values; that is
@@ -851,6 +1007,7 @@ def main():
 
     table_vb("methodRaw", arms_variant_to_lit(fn_body(common, "Method", "raw"), True))
     table_bv("methodTryFrom", arms_lit_to_variant(fn_body(common, "Method", "try_from"), True))
+    table_vb("methodToStr", arms_variant_to_lit(fn_body(common, "Method", "to_str"), False))
     table_vb("versionRaw", arms_variant_to_lit(fn_body(common, "Version", "raw"), True))
     table_bv("versionTryFrom", arms_lit_to_variant(fn_body(common, "Version", "try_from"), True))
     table_vb("statusRaw", arms_variant_to_lit(fn_body(resp, "StatusCode", "raw"), True))
@@ -909,7 +1066,7 @@ def main():
              "  GENERATED by /verif/tools/extract.py from /repo/src on every run of `check` — do not edit.",
              "  `none` = the translator did not find the item in the source (see tools/extract.py).",
              "-/",
-             "import MicroHttp.Response", "import MicroHttp.Headers", "import MicroHttp.Server",
+             "import MicroHttp.Response", "import MicroHttp.Headers", "import MicroHttp.Server", "import MicroHttp.Router",
              "namespace MicroHttp.Extracted", "open MicroHttp", "",
              "/-- `for (idx, x) in l.iter().enumerate()` -/",
              "def forEnumFrom {α β : Type} (f : Nat → α → List β) : Nat → List α → List β",
@@ -940,6 +1097,16 @@ def main():
     ce, why_e = translate_client_enqueue(srv)
     for name, ty, term, why_ in (("clientWriteState", "CState → WriteOut → Bool → CState", cw, why_w),
                                  ("clientEnqueue", "CState → Nat → Bool × Option Nat", ce, why_e)):
+        summary[name] = "ok" if term else "unparsed: " + str(why_)
+        lines.append("")
+        lines.append(f"def {name} : Option ({ty}) := " + (f"some ({term})" if term else "none"))
+    rt = translate_router(router)
+    ap = translate_abs_path(req)
+    for name, ty, term, why_ in (("routerAddKey", "Method → List UInt8 → List UInt8 → List UInt8", rt["addKey"], rt.get("why_add")),
+                                 ("routerAddShape", "Bool → Bool × Bool", rt["addShape"], rt.get("why_add")),
+                                 ("routerDispatchKey", "Method → List UInt8 → List UInt8", rt["dispatchKey"], rt.get("why_handle")),
+                                 ("routerHandle", "Routes → Option Response → Response", rt["handle"], rt.get("why_handle")),
+                                 ("uriAbsPath", "List UInt8 → List UInt8", ap, "shape")):
         summary[name] = "ok" if term else "unparsed: " + str(why_)
         lines.append("")
         lines.append(f"def {name} : Option ({ty}) := " + (f"some ({term})" if term else "none"))
